@@ -262,7 +262,8 @@ def caseless_grammar(rng):
     lit = ('lit', True, [gen.C(ch)])
     kind = r.choice(['string', 'struct', 'position'])
     if kind == 'string':
-        rules = [dict(kind='rule', dirs=['export', 'string'], name='S',
+        rules = [dict(kind='rule', dirs=['export'], name='S', body=gen.choice(gen.seq(F('w', 'W')))),
+                 dict(kind='rule', dirs=['string'], name='W',
                       body=gen.choice(gen.seq(('star', gen.choice(gen.seq(lit), gen.seq(('range', gen.C('a'), gen.C('c'))))), F(None, 'char'))))]
     else:
         rules = [dict(kind='rule', dirs=['export'], name='S',
@@ -328,6 +329,25 @@ def spell_directives(rng, rules, mode):
             r['dirs'] = slots
         out.append(r)
     return out
+
+
+def deep_grammar(rng):
+    """rule nesting deeper than any fixed small bound (tracers keep per-level state): brackets nested 25–40 deep through
+    two or three rules per level"""
+    r = rng
+    F = lambda n, t, bx=False: ('field', n, bx, t)
+    o, c = r.choice([('(', ')'), ('[', ']'), ('<', '>')])
+    rules = [dict(kind='rule', dirs=['export'], name='V', body=gen.choice(gen.seq(F('l', 'L', True)), gen.seq(F('n', 'Num')))),
+             dict(kind='rule', dirs=r.choice([[], ['position'], ['memoize']]), name='L',
+                  body=gen.choice(gen.seq(gen.lit(o), ('star', gen.choice(gen.seq(F('items', 'I')))), gen.lit(c)))),
+             dict(kind='rule', dirs=[], name='I', body=gen.choice(gen.seq(F('v', 'V', True), ('opt', gen.choice(gen.seq(gen.lit(','))))))),
+             dict(kind='rule', dirs=['string'], name='Num', body=gen.choice(gen.seq(('plus', gen.choice(gen.seq(('range', gen.C('0'), gen.C('9'))))))))]
+    ins = []
+    for d in (1, 3, 17, 25, 33, 40):
+        ins.append(o * d + '7' + c * d)
+        ins.append(o * d + '1,' + o + '2' + c + c * (d - 1) + ('' if d % 2 else 'x'))
+    ins.append(o * 30 + '5' + c * 29)
+    return rules, [('V', s) for s in ins]
 
 
 def probe_grammar(rng):
@@ -453,6 +473,10 @@ def build_cases(seed, tier):
         for v, mode in enumerate(['orig', 'shuffle', 'reverse', 'dup']):
             add('spell%dv%d' % (i, v), rules if v == 0 else spell_directives(rng, rules, mode), False, ins, ['spell', 'hooks'],
                 group='spell%d' % i, variant=v)
+    # deep rule nesting
+    for i in range(2 if tier == 'quick' else 6):
+        rules, ins = deep_grammar(rng)
+        add('deep%d' % i, rules, False, ins, ['mix', 'deep'])
     # lookaheads that get further than what follows them (error position: C10)
     for i in range(8 if tier == 'quick' else 24):
         rules, ins = lookfar_grammar(rng)
@@ -510,7 +534,7 @@ def get_suite(seed, tier):
         t0 = time.time()
         cases = build_cases(seed, tier)
         work = os.path.join(CACHE, 'suite-work-' + tier)
-        res = pegdiff.run_cases(cases, work, nbatch=14, seed=seed)
+        res = pegdiff.run_cases(cases, work, nbatch=14, seed=seed, indented=True)
         out = dict(key=key, seed=seed, tier=tier, wall_s=time.time() - t0, timing=res['timing'],
                    gen={k: list(v) for k, v in res['gen'].items()}, compile_fail=res['compile_fail'], hist=res['hist'],
                    cases=[dict(id=c['id'], tags=c['tags'], group=c['group'], variant=c['variant'], uctx=c['settings']['uctx'],
